@@ -515,7 +515,44 @@ class Emit:
                 return ('num' if k == 'raw' else k), inner
             if name in ('len',):
                 return 'int', e
+        if isinstance(e, ast.Name):
+            v = env.get(e.id)
+            # a position produced by enumerate() / range() is an integer
+            if isinstance(v, UV) and v.prov == frozenset({'<index>'}):
+                return 'int', e
+            # a name bound to float(...) (assignment or walrus)
+            if isinstance(v, UV) and v.prov and all(
+                    p.startswith('<float>') for p in v.prov):
+                return 'num', e
+            if e.id in self._float_only_names():
+                return 'num', e
+        if isinstance(e, ast.NamedExpr):
+            return self.classify(e.value, env)
         return 'raw', e
+
+    def _float_only_names(self):
+        """Names that are bound, everywhere in the function, to float(...)
+        (plain assignment or walrus)."""
+        if not hasattr(self, '_fnames'):
+            binds = {}
+            for n in ast.walk(self.func):
+                tv = None
+                if isinstance(n, ast.NamedExpr) and isinstance(
+                        n.target, ast.Name):
+                    tv = (n.target.id, n.value)
+                elif isinstance(n, ast.Assign) and len(n.targets) == 1 and \
+                        isinstance(n.targets[0], ast.Name):
+                    tv = (n.targets[0].id, n.value)
+                elif isinstance(n, (ast.For, ast.comprehension)):
+                    for x in ast.walk(n.target):
+                        if isinstance(x, ast.Name):
+                            binds.setdefault(x.id, []).append(None)
+                if tv:
+                    binds.setdefault(tv[0], []).append(tv[1])
+            self._fnames = {nm for nm, vals in binds.items() if vals and all(
+                isinstance(v, ast.Call) and call_name(v) in (
+                    'float', 'np.float64') for v in vals)}
+        return self._fnames
 
     def dyn_for(self, e, env, spec_kind=None):
         kind, inner = self.classify(e, env)
@@ -557,6 +594,16 @@ class Emit:
             if c is not UNKNOWN:
                 return SV((('lit', c),)) if isinstance(c, str) else CV(c)
             return UV(e.id, {e.id})
+        if isinstance(e, ast.NamedExpr) and isinstance(e.target, ast.Name):
+            val = self.ev(e.value, env)
+            if isinstance(e.value, ast.Call) and call_name(e.value) in (
+                    'float', 'np.float64'):
+                env[e.target.id] = UV(e.target.id, {'<float>' + p for p in
+                                                    self.prov(e.value, env)}
+                                      or {'<float>'})
+            else:
+                env[e.target.id] = val
+            return val
         if isinstance(e, ast.JoinedStr):
             stream = ()
             for v in e.values:
